@@ -506,6 +506,8 @@ class OverhangFilter(Module):
 
         dir_layer = int(np.argmax(abs(self.direction)))  # The axis of the print direction
         dx_layer = int(np.sign(self.direction[dir_layer]))  # Iteration direction
+        if size[dir_layer] < 2:
+            return dxprint  # Only a base layer: the response is the identity, and so is its adjoint
         ind_layer = size[dir_layer]-1 if dx_layer >= 0 else 0  # Starting index (="ending" in response)
 
         dir_orth1 = (dir_layer + 1) % 3
